@@ -15,11 +15,14 @@ RULE = ('seeded family: valid prefix (possibly ending inside a fragmented '
         'Non-trivial = reached Ready; distinct = distinct (violation class, '
         'position, prefix layout, cut count) signatures')
 SHRINK_LISTS = [('items',), ('items', '*', 'inner', '*'), ('trailing',),
+                ('schedule', 'points'),
                 ('cuts',)]
 EXPECTED_PROBES = ['inside_fragmented', 'has_trailing', 'cut_inside_violation',
                    'violation_while_closing', 'offer_declined',
                    'empty_first_fragment', 'ctl_before_new_data_frame',
-                   'big_nonfinal_fragment', 'keepalive_and_slow_handlers']
+                   'big_nonfinal_fragment', 'keepalive_and_slow_handlers',
+                   'after_compressed_connection',
+                   'threaded_violation_vs_senders']
 ASSUMPTIONS = ['close codes 1012-1014 and >= 5000 and RSV1 on control frames '
                'under compression are not generated (the property does not '
                'quantify over them)']
@@ -38,8 +41,110 @@ MARK = b'TRAILING-MARKER-'
 
 def plan(tier):
     if tier == 'quick':
-        return [('headers', 65536), ('seeded', 6000), ('busy', 1500)]
-    return [('headers', 65536), ('seeded', 300000), ('busy', 60000)]
+        return [('headers', 65536), ('seeded', 6000), ('busy', 1500),
+                ('threaded_sweep', len(TBASES) * TSLOT * 2),
+                ('threaded_random', 300)]
+    return [('headers', 65536), ('seeded', 300000), ('busy', 60000),
+            ('threaded_sweep', len(TBASES) * TSLOT * 2),
+            ('threaded_random', 30000)]
+
+
+TSLOT = 2500
+_TXT = {'op': 'send_text', 'text': 'T1-0-' + 'd' * 60}
+_BIN = {'op': 'send_binary', 'hex': ('T2-0-' + 'e' * 140).encode().hex()}
+TBASES = [
+    {'name': 'violation_vs_text', 'threads': [[_TXT]], 'loop': ['bad_opcode']},
+    {'name': 'violation_vs_two_senders', 'threads': [[_TXT], [_BIN]],
+     'loop': ['text', 'bad_opcode']},
+    {'name': 'critical_violation_vs_text', 'threads': [[_TXT, _BIN]],
+     'loop': ['bad_utf8']},
+    {'name': 'violation_vs_close', 'threads': [[{'op': 'close', 'code': 1000,
+                                                 'reason': 'app'}]],
+     'loop': ['bad_opcode']},
+]
+_TINFO = {}
+
+
+def _tinfo(b):
+    from . import _threads as T
+    if b not in _TINFO:
+        _TINFO[b] = T.default_steps(TBASES[b])
+    return _TINFO[b]
+
+
+def _threaded_case(family, i, rng):
+    import copy
+    from . import _threads as T
+    if family == 'threaded_sweep':
+        senders_first = i >= len(TBASES) * TSLOT
+        i %= len(TBASES) * TSLOT
+        b = i // TSLOT
+        n, nt = _tinfo(b)
+        slot = i % TSLOT
+        step, who = slot // (nt + 1), slot % (nt + 1)
+        if step < 2 or step > n + 40:
+            return None
+        tid = who if who < nt else T.threadsim.CLOCK
+        case = copy.deepcopy(TBASES[b])
+        pts = [[step, tid]]
+        if senders_first:
+            pts = [[1, 1]] + pts
+        case['schedule'] = {'kind': 'preempt', 'points': pts}
+    else:
+        case = copy.deepcopy(TBASES[rng.randrange(len(TBASES))])
+        case['schedule'] = {'kind': 'random', 'seed': rng.getrandbits(32),
+                            'stay': rng.choice([0.5, 0.8, 0.95])} \
+            if rng.random() < 0.6 else \
+            {'kind': 'pct', 'seed': rng.getrandbits(32),
+             'd': rng.choice([1, 2, 3]), 'horizon': 500}
+    case['threaded'] = True
+    return case
+
+
+def _execute_threaded(case):
+    """The event loop fails the connection for a protocol violation while
+    application threads are sending: after the (one) Close nothing else is
+    written, and a call that lost the race gets a WebSocketError."""
+    from . import _threads as T
+    res = Result()
+    sc, tr, sched = T.run(case)
+    w = tr.world
+    res.stats.update(w.stats)
+    res.sim_us = w.now
+    res.digest = T.digest(tr, sched)
+    if sched.error is not None:
+        raise RuntimeError('ThreadSim harness error: %r' % (sched.error,))
+    base = case['name']
+    if tr.hang:
+        res.bad('C04/threaded/hang', tr.hang)
+    if tr.escaped:
+        res.bad('C04/threaded/escaped', '%s %s' % tr.escaped)
+    wire = oracle.Wire(w.socks[-1])
+    ops = [f.opcode for f in wire.frames]
+    names = [e.name for e in tr.events]
+    res.stats['probe:threaded_violation_vs_senders'] += 1
+    if names.count('protocol_error') != 1:
+        res.bad('C04/threaded/protocol_error_count',
+                'events %s' % names[-6:])
+    if ops.count(peer.OP_CLOSE) > 1:
+        res.bad('C04/threaded/two_close_frames', 'wire %r | %s' % (
+            ops, T.site_signature(sched)))
+    if peer.OP_CLOSE in ops and not wire.incomplete:
+        k = ops.index(peer.OP_CLOSE)
+        if ops[k + 1:]:
+            res.bad('C04/threaded/frame_after_close',
+                    'wire %s | %s' % ([peer.OPNAME.get(o, o) for o in ops],
+                                      T.site_signature(sched)))
+    for c in tr.tcalls:
+        if c.outcome == 'raised' and not c.exc_is_wse:
+            res.bad('C04/threaded/loser_raised_%s' % c.exc,
+                    '%s of thread %d' % (c.op['op'], c.tid))
+    res.nontrivial = 'protocol_error' in names
+    res.sig = 'thr|%s|%s' % (base, T.site_signature(sched))
+    res.sample = {'base': base, 'schedule': case.get('schedule'),
+                  'wire': [peer.OPNAME.get(o, o) for o in ops],
+                  'events': names[-6:]}
+    return res
 
 
 # ---------------------------------------------------------------------------
@@ -105,6 +210,8 @@ def header_frame(b1, b2):
 # ---------------------------------------------------------------------------
 
 def make_case(family, i, rng, tier):
+    if family.startswith('threaded'):
+        return _threaded_case(family, i, rng)
     if family == 'headers':
         return {'header': [i >> 8, i & 255], 'seg': ['one', 'cuts'][i % 2],
                 'cut_seed': i, 'ncuts': 3}
@@ -162,6 +269,10 @@ def make_case(family, i, rng, tier):
         # permessage-deflate offered by the client, declined by the server:
         # RSV1 is still a violation
         case['offer_declined'] = True
+        if rng.random() < 0.5:
+            # ... although an earlier connection of the same object had it
+            # accepted and received compressed frames
+            case['earlier_compressed'] = True
     if cls in ('bad_utf8_later_fragment', 'bad_utf8_split_across') and \
             rng.random() < 0.35:
         case['empty_first'] = True
@@ -408,10 +519,27 @@ def build(case):
                             extra_headers=extra, ws=ws, app=app,
                             connect=connect)
     enc.expected = prefix_expected
+    if case.get('earlier_compressed'):
+        dp = peer.DeflatePeer()
+        z = dp.compress(b'compressed on the earlier connection ' * 3)
+        fr = peer.enc_frame(1, z, rsv1=1) + \
+            peer.enc_frame(2, z[:5], rsv1=1, fin=0) + \
+            peer.enc_frame(0, z[5:], fin=1) + \
+            peer.enc_frame(2, dp.compress(b'bin'), rsv1=1)
+        first = {'server': S.handshake_steps(
+            [b'Sec-WebSocket-Extensions: permessage-deflate']) +
+            [S.send(fr), S.eof(after=1003)]}
+        sc['conns'] = [first] + sc['conns']
+        sc['n_connects'] = 2
+        for rule in sc.get('app') or []:
+            rule['when'] = dict(rule['when'], attempt=1)
+        enc.probes['after_compressed_connection'] += 1
     return sc, enc, ('bad',)
 
 
 def execute(case):
+    if case.get('threaded'):
+        return _execute_threaded(case)
     res = Result()
     sc, enc, verdict = build(case)
     tr = netsim.run(sc)
@@ -420,12 +548,14 @@ def execute(case):
         res.stats['probe:' + k] += v
     res.sim_us = tr.world.now
     res.digest = tr.digest()
+    if case.get('earlier_compressed'):
+        tr.events = oracle.split_attempts(tr.events)[-1]
     names = tr.names()
     got = [oracle.payload_of(e.snap) for e in oracle.msg_events(tr)]
     cls = case.get('class', 'header')
     tag = cls if 'header' not in case else 'header'
     rlen = sc['_rlen']
-    cuts = sc['conns'][0]['server'][1]['cuts']
+    cuts = sc['conns'][-1]['server'][1]['cuts']
     if any(rlen + enc.vstart < c < rlen + enc.vend for c in cuts):
         res.stats['probe:cut_inside_violation'] += 1
     if case.get('class') == 'bad_utf8_big_nonfinal':
